@@ -184,6 +184,47 @@ func DegenerateShapes(r *R) []Degenerate {
 		g.Enums = []*ir.Enum{{Name: "Color", Values: []ir.EnumValue{{Name: "COLOR_UNSPECIFIED", Number: 0}, {Name: "COLOR_RED", Number: 1, Custom: sp("red")}}}}
 		add("enums_only_file", g)
 	}
+	// diamond chains: 32 levels, each referring to the next level TWICE (two fields / a map field the
+	// generators visit twice): a traversal that releases its visited mark does 2^32 work
+	{
+		f := mk("diamond", "d.diamond")
+		const depth = 32
+		for l := 0; l < depth; l++ {
+			m := &ir.Message{Name: fmt.Sprintf("L%d", l), Fields: []*ir.Field{{Name: "v", Number: 1, Kind: "string"}}}
+			if l+1 < depth {
+				next := fmt.Sprintf(".d.diamond.L%d", l+1)
+				m.Fields = append(m.Fields, &ir.Field{Name: "left", Number: 2, Kind: "message", TypeName: next}, &ir.Field{Name: "right", Number: 3, Kind: "message", TypeName: next})
+			}
+			f.Messages = append(f.Messages, m)
+		}
+		f.Services = []*ir.Service{svcFor("d.diamond", "L0", "L0")}
+		add("diamond_chain_two_fields", f)
+	}
+	{
+		f := mk("diamondmap", "d.diamondmap")
+		const depth = 32
+		for l := 0; l < depth; l++ {
+			m := &ir.Message{Name: fmt.Sprintf("M%d", l), Fields: []*ir.Field{{Name: "v", Number: 1, Kind: "string"}}}
+			if l+1 < depth {
+				m.Fields = append(m.Fields, &ir.Field{Name: "next", Number: 2, Kind: "message", TypeName: fmt.Sprintf(".d.diamondmap.M%d", l+1), Card: "map", MapKey: "string"})
+			}
+			f.Messages = append(f.Messages, m)
+		}
+		f.Services = []*ir.Service{svcFor("d.diamondmap", "M0", "M0")}
+		add("diamond_chain_map_values", f)
+	}
+	// root unwrap over scalar collections (no value message to look at)
+	for _, v := range []struct{ shape, kind, card string }{{"root_unwrap_scalar_map_string", "string", "map"}, {"root_unwrap_scalar_map_int64", "int64", "map"},
+		{"root_unwrap_scalar_list", "double", "repeated"}, {"root_unwrap_enum_free_bool_map", "bool", "map"}} {
+		f := mk("ru"+v.shape[12:], "d.ru")
+		fl := &ir.Field{Name: "entries", Number: 1, Kind: v.kind, Card: v.card, Ann: ir.Ann{Unwrap: true}}
+		if v.card == "map" {
+			fl.MapKey = "string"
+		}
+		f.Messages = []*ir.Message{{Name: "Bag", Fields: []*ir.Field{fl}}, {Name: "Q", Fields: []*ir.Field{{Name: "q", Number: 1, Kind: "string"}}}}
+		f.Services = []*ir.Service{svcFor("d.ru", "Q", "Bag")}
+		add(v.shape, f)
+	}
 	return out
 }
 
